@@ -146,8 +146,9 @@ def transpose_state(s):
 
 def apply_op(s, c):
     """textbook effect of the next operation of token cursor c on state s.
-    returns (new_state, tag): tag None = must succeed; 'abort:<why>' = a documented precondition is violated
-    (abort acceptable); 'defect:<why>' = known-defect input class; 'bad' = operation does not exist."""
+    returns (new_state, tag): tag None = must succeed; 'abort:<why>' = the input is outside the operation's domain
+    (an assertion is the specified outcome); 'defect:Dk:<why>' = input class of the known finding c02-edge:Dk (inside
+    the property's quantifier, judged like every other case); 'bad' = operation does not exist."""
     op = c.tok()
     if op == "tocsr":
         if s.fmt == "dense":
@@ -155,10 +156,8 @@ def apply_op(s, c):
         t = s.copy()
         t.fmt, t.bh, t.bw = "csr", 1, 1
         if s.fmt == "cscr":
-            if s.nnz() == 0:
-                return t, "abort:cscr->csr of an entry-free matrix (XASSERT used_elements > 0)"
-            if not all(s.row_has()):
-                return t, "abort:cscr->csr of a matrix with an empty row (set_line: invalid row number)"
+            if s.nnz() == 0 or not all(s.row_has()):
+                return t, "defect:D6:cscr->csr of a matrix with an empty row aborts"
         return t, None
     if op == "tobanded":
         if s.fmt not in ("csr", "banded"):
@@ -167,7 +166,8 @@ def apply_op(s, c):
         t.fmt = "banded"
         if s.fmt == "csr":
             if s.nnz() == 0:
-                return t, "abort:csr->banded of an entry-free matrix (XASSERT used_elements > 0)"
+                t.pat = set()
+                return t, "defect:D7:csr->banded of an entry-free matrix aborts"
             offs = sorted({j + s.rows - 1 - i for (i, j) in s.pat})
             t.pat = band_slots(s.rows, s.cols, offs)
         return t, None
@@ -178,10 +178,7 @@ def apply_op(s, c):
         t.fmt = "cscr"
         if s.fmt == "csr":
             if s.nnz() == 0:
-                return t, "defect:csr->cscr of an entry-free matrix dereferences a null row_ptr"
-            h = s.row_has()
-            if any((not h[i]) and any(h[i + 1:]) for i in range(s.rows)):
-                return t, "defect:csr->cscr with an empty row before a non-empty row writes rows at wrong offsets"
+                return t, "defect:D3:csr->cscr of an entry-free matrix crashes"
         return t, None
     if op == "clone":
         m = c.nat()
@@ -192,15 +189,12 @@ def apply_op(s, c):
         if s.fmt != "csr":
             return s, "bad"
         if s.nnz() == 0:
-            return s.copy(), "defect:Graph(as_is, csr) of an entry-free matrix throws std::out_of_range"
+            return s.copy(), "defect:D5:Graph(as_is, csr) of an entry-free matrix throws"
         return s.copy(), None
     if op in ("tr", "tri"):
         if s.fmt not in (("csr", "dense", "bcsr") if op == "tr" else ("csr", "dense")):
             return s, "bad"
-        t = transpose_state(s)
-        if s.fmt == "bcsr" and s.nnz() == 0 and s.rows // s.bh != s.cols // s.bw:
-            return t, "defect:bcsr transpose of an entry-free matrix keeps the block dimensions r x c"
-        return t, None
+        return transpose_state(s), None
     if op == "perm":
         p, q = c.nats(), c.nats()
         if s.fmt != "csr":
@@ -208,10 +202,10 @@ def apply_op(s, c):
         if not p and not q:
             return s.copy(), None
         if len(p) != s.rows or len(q) != s.cols:
-            return s.copy(), "abort:permutation size does not match (XASSERTM)"
+            return s.copy(), "abort:permutation size does not match the matrix (XASSERTM)"
         t = s.copy()
         if s.nnz() == 0:
-            return t, "defect:permute of an entry-free matrix dereferences a null row_ptr"
+            return t, "defect:D1:permute of an entry-free matrix crashes"
         t.M = [[s.M[p[i]][q[j]] for j in range(s.cols)] for i in range(s.rows)]
         t.pat = {(i, j) for i in range(s.rows) for j in range(s.cols) if (p[i], q[j]) in s.pat}
         return t, None
@@ -396,9 +390,11 @@ def gen_case(rng, big):
             ops.append(o)
             s = t
         elif tag.startswith("abort:") and rng.random() < 0.3:
-            ops.append(o)  # a documented precondition: the chain ends with the specified abort
+            ops.append(o)  # outside the operation's domain: the chain ends with the specified abort
             break
-        # 'defect:' classes are known FEAT defects (FINDINGS_C02.md): the generator keeps away from them
+        elif tag.startswith("defect:") and rng.random() < 0.15:
+            ops.append(o)  # input class of an open known finding: executed and judged (the chain ends here)
+            break
     return "%d %s %d %s" % (rng.choice([32, 64]), init, len(ops), " ".join(ops))
 
 
@@ -415,8 +411,6 @@ CORPUS = [
     "32 csr 4 1 5 0 1 1 2 2 2 0 0 2 5/1 7/1 3 tr tr tri",       # single column (cols - 1 = 0 in the prefix loop)
     "32 csr 1 4 2 0 2 2 0 3 2 5/1 7/1 2 tr tobanded",
     "64 csr 3 3 4 0 1 2 2 2 1 2 2 5/1 7/1 2 tocscr clone 3",    # trailing empty row
-    "64 cscr 3 3 3 0 1 2 2 1 2 2 5/1 7/1 2 1 2 1 tocsr",        # specified abort
-    "32 csr 2 3 0 0 0 1 tobanded",                               # specified abort
     "32 banded 3 4 2 1 3 6 1/1 2/1 3/1 4/1 5/1 6/1 2 tocsr tobanded",
     "32 banded 3 3 0 0 2 tocsr tr",
     "32 bcsr 2 3 1 2 2 0 1 1 1 6 1/1 2/1 3/1 4/1 5/1 6/1 3 tr tocsr tr",
@@ -427,14 +421,23 @@ CORPUS = [
     "32 csr 2 2 3 0 1 2 2 0 1 2 1/1 2/1 1 perm 1 0 2 0 1",      # specified abort (size mismatch)
 ]
 
-# inputs on which the property FAILS on the current tree (FINDINGS_C02.md); only run with C02_INCLUDE_FINDINGS=1
-FINDING_CASES = [
+# regression cases of repaired defects (D2: csr->cscr with an empty row before a non-empty one, fixed by ed19cf584;
+# D4: bcsr transpose of an entry-free matrix, fixed by 0f251956b) and one input per open known finding
+# (c02-edge:D1, D3, D5, D6, D7 of KNOWN_FINDINGS.json) - all executed and judged on every run
+CORPUS += [
+    "64 csr 3 3 4 0 0 1 2 2 1 2 2 5/1 7/1 1 tocscr",
+    "32 csr 4 3 5 0 0 2 2 3 3 0 2 1 3 1/2 1/3 1/5 3 tocscr clone 3 it",
+    "32 csr 2 2 3 0 0 1 1 1 1 3/1 1 tocscr",
+    "32 bcsr 2 3 1 2 0 0 0 1 tr",
+    "64 bcsr 3 2 3 1 0 0 0 2 tr tr",
     "32 csr 2 3 0 0 0 1 perm 2 1 0 3 2 0 1",
     "32 csr 0 3 0 0 0 1 perm 0 3 2 1 0",
-    "64 csr 3 3 4 0 0 1 2 2 1 2 2 5/1 7/1 1 tocscr",
     "32 csr 2 3 0 0 0 1 tocscr",
-    "32 bcsr 2 3 1 2 0 0 0 1 tr",
     "32 csr 2 3 0 0 0 1 graph",
+    "64 cscr 3 3 3 0 1 2 2 1 2 2 5/1 7/1 2 1 2 1 tocsr",
+    "64 csr 3 3 4 0 1 2 2 2 1 2 2 5/1 7/1 2 tocscr tocsr",
+    "64 cscr 3 3 0 0 0 0 1 tocsr",
+    "32 csr 2 3 0 0 0 1 tobanded",
 ]
 
 
@@ -591,9 +594,9 @@ def oracle(case, out):
         return None if out == "BAD-OP" else "harness accepted an operation that does not exist for the format"
     if is_abnormal(out):
         if tag is not None and tag.startswith("abort:") and out.startswith("ABORT"):
-            return None  # documented precondition, reported by an assertion
+            return None  # outside the operation's domain, reported by an assertion
         if tag is not None and tag.startswith("defect:"):
-            return "known-defect input: %s -> %s" % (tag[7:], out.split(":")[0])
+            return "%s (%s)" % (tag.split(":", 2)[2], out.split(":")[0])
         return "a chain of valid operations ended with %s" % out[:80]
     try:
         segs = [parse_segment(x) for x in out.split("|")[1:]]
@@ -664,7 +667,7 @@ def describe(case):
     if s0.rows == 0 or s0.cols == 0:
         keys.append("zero-dimension")
     if tag is not None:
-        keys.append("tag:" + tag.split(":")[0])
+        keys.append("tag:" + ":".join(tag.split(":")[:2 if tag.startswith("defect:") else 1]))
     for a, b in zip(states, states[1:]):
         if a.fmt != b.fmt:
             keys.append("conv:%s->%s" % (a.fmt, b.fmt))
@@ -673,12 +676,26 @@ def describe(case):
 
 
 def signature(case, out, why):
+    """known findings are keyed by the input class of the operation at which the chain stops (c02-edge:Dk); any
+    other failure by format + operation + reason"""
     try:
         it, states, ops, tag, k = simulate(case)
-        last = ops[k][0] if k is not None else (ops[-1][0] if ops else "init")
-        return "%s:%s:%s" % (states[min(k, len(states) - 1) if k is not None else -1].fmt, last, (tag or why or "")[:60])
     except Exception:
         return "malformed:" + (why or "")[:40]
+    if tag is not None and tag.startswith("defect:") and is_abnormal(out):
+        return "c02-edge:" + tag.split(":")[1]
+    last = ops[k][0] if k is not None else (ops[-1][0] if ops else "init")
+    return "%s:%s:%s" % (states[-1].fmt, last, (why or "")[:60])
+
+
+def model_filter(case):
+    """the Lean model shows the intended result where the real code crashes (D1, D3, D5); it reproduces the aborts
+    of D6 / D7"""
+    try:
+        it, states, ops, tag, k = simulate(case)
+    except Exception:
+        return True
+    return not (tag is not None and tag.startswith("defect:") and tag.split(":")[1] in ("D1", "D3", "D5"))
 
 
 def canon(out):
@@ -706,10 +723,8 @@ def main(argv):
             for fn in sorted(os.listdir(cdir)):
                 extra += [l.strip() for l in open(os.path.join(cdir, fn)) if l.strip() and not l.startswith("#")]
         cases = CORPUS + extra + (gen_cases(rng, 6000) if args.tier == "quick" else gen_cases(rng, 150000, big=True))
-        if os.environ.get("C02_INCLUDE_FINDINGS"):
-            cases = FINDING_CASES + cases
     st = vlib.Stream("chains", cases, [binary], vlib.driver_cmd(PROP), oracle=oracle, nontrivial=nontrivial,
-                     describe=describe, signature=signature, canon=canon)
+                     describe=describe, signature=signature, canon=canon, model_filter=model_filter)
     stats_rule = ("random matrices in CSR / CSCR / banded / BCSR(2x2,2x3,3x2) / dense form (dims 0..6, thorough ..14; entry-free, "
                   "single entry, empty rows in leading/middle/trailing position, rectangular, all band sets) followed by "
                   "chains of 0..12 operations (format conversion, the 4 clone modes, layout/graph rebuild, transpose in and "
@@ -718,6 +733,7 @@ def main(argv):
     rc = vlib.run_pipeline(PROP, args.tier, args.seed, lean, [st], t0, assumptions=[
         "Index modelled as unbounded Nat (no 32/64-bit overflow at the sizes FEAT can allocate)",
         "data-type round trip (Q -> double -> float -> Q) exercised on float-representable values only",
-        "known-defect input classes of FINDINGS_C02.md are not generated (C02_INCLUDE_FINDINGS=1 adds them)"],
+        "input classes of the open known findings c02-edge:D1/D3/D5/D6/D7 are generated and judged; where the real "
+        "code crashes (D1, D3, D5) the Lean model shows the intended result and is not compared"],
         extra_cov={"rule": stats_rule})
     return rc
